@@ -7,6 +7,8 @@
    floor.  Assumed about the real clock: now and now + lifetime are representable time.Time
    values and the resulting second fits float64 exactly (|s| < 2^53). *)
 From CR Require Import Model.Monitor.
+(* the code computes instants and durations on one clock (extracted): one_clock in Properties/Clock.v *)
+From CR Require Properties.Clock.
 From CR Require Import Proofs.Monitor.
 Local Open Scope Z_scope.
 
